@@ -342,3 +342,16 @@ func parseSMTInt(t string) (int64, bool) {
 	}
 	return n, true
 }
+
+// flattenConcat splits an SMT string term into the leaves of its (nested) str.++ structure.
+func flattenConcat(t string) []string {
+	t = strings.TrimSpace(t)
+	if strings.HasPrefix(t, "(str.++ ") && matchParen(t, 0) == len(t)-1 {
+		var out []string
+		for _, a := range splitArgs(t[len("(str.++ ") : len(t)-1]) {
+			out = append(out, flattenConcat(a)...)
+		}
+		return out
+	}
+	return []string{t}
+}
